@@ -25,7 +25,7 @@ pub fn run_c19(ctx: &mut Ctx) {
     if shard == 0 {
         methods_and_statuses(rep);
         content_formats(rep, &mut r);
-        observe_flags(rep);
+        observe_flags(rep, level);
     }
     paths(rep, level, shard, nshards, &mut r, budget);
     trait_views(rep, &mut r, budget, level);
@@ -196,7 +196,7 @@ fn content_formats(rep: &mut Report, r: &mut Rng) {
     }
 }
 
-fn observe_flags(rep: &mut Report) {
+fn observe_flags(rep: &mut Report, level: u32) {
     for (flag, n) in [(ObserveOption::Register, 0u64), (ObserveOption::Deregister, 1u64)] {
         for prev in [None, Some(ObserveOption::Register), Some(ObserveOption::Deregister)] {
             rep.eval();
@@ -219,7 +219,7 @@ fn observe_flags(rep: &mut Report) {
         }
     }
     // raw Observe bytes of length 0..6
-    let lows: Vec<u16> = (0..=0x0300u16).chain([0xffffu16, 0x8000, 0x0100].iter().copied()).collect();
+    let lows: Vec<u16> = (0..=0x0300u16).step_by(if level == 0 { 41 } else { 1 }).chain([0xffffu16, 0x8000, 0x0100, 1, 2].iter().copied()).collect();
     for len in 0..=6usize {
         for &low in lows.iter() {
             for hi in [0u8, 1, 0xff] {
